@@ -1,5 +1,4 @@
 use std::fs;
-use std::io::Write;
 use std::path::{Path, PathBuf};
 use std::sync::atomic::{AtomicBool, Ordering};
 use std::time::{Duration, SystemTime};
@@ -201,9 +200,10 @@ fn write_to_cache(url: &str, content: &str, project_root: Option<&Path>) -> Opti
         fs::create_dir_all(parent).ok()?;
     }
 
-    // Write content to cache file
-    let mut file = fs::File::create(&cache_path).ok()?;
-    file.write_all(content.as_bytes()).ok()?;
+    // Write atomically (temp file + rename): an interrupted fetch must never leave a
+    // truncated copy that a later run would trust for the whole cache lifetime.
+    crate::state::atomic_write_with_lock(&cache_path, content.as_bytes(), "remote config cache")
+        .ok()?;
 
     Some(())
 }
